@@ -20,6 +20,7 @@ RULE = (
     "sequence; non-trivial = >= 2 options non-default or a multi-bit option at its top value or a clamped value"
     ' Also (added while the seeded-change rounds of DESIGN section 9 ran): Every third assignment is made with the strictness flag off; later generations continue on the loaded object, a clone, or the saved object itself; exclusive pairs are split across a save; project contexts are written as older versions in turn.'
 )
+RULE += " Rounds 12-14 of DESIGN section 9 added: boundary assignments right after each fixture has been read; options given as constructor keywords (alone and in pairs, both orders, also through new_module); MetaModules whose user-defined controllers are named after its options."
 ASSUMPTIONS = [
     "YAML byte/bit/size/inverted/exclusive_of/min/max are the declared layout",
     "stored value of an inverted option = not logical value; exclusive partner is cleared on assignment (any assignment, as the library's descriptor documents)",
